@@ -173,3 +173,228 @@ pub fn run_plain<C>(case: &C, id: &'static str, check: fn(&C, &mut crate::fw::Ct
     let mut ctx = crate::fw::Ctx { stats: &mut st, known, id, counting: false, strict: false, by_construction: false };
     check(case, &mut ctx)
 }
+
+// ---- value-checking properties (C01, C02, C03): bytes → configuration + stream built from segments ----
+use crate::gen::{bars_from, expand, grid_step, Domain};
+use crate::props::{c01, c02, c03};
+
+impl<'a> R<'a> {
+    /// period with a bias towards small values but reaching 2048 (coverage feedback rewards the
+    /// inputs that cross a period threshold inside the code under test)
+    pub fn period_wide(&mut self) -> usize {
+        let a = self.u8() as usize;
+        match a % 8 {
+            0..=3 => a / 8 % 9 + 1,
+            4 | 5 => self.u8() as usize % 64 + 1,
+            6 => self.u8() as usize * 2 + a / 8 + 1,
+            _ => (self.u16() as usize % 2048) + 1,
+        }
+    }
+    /// a stream made of up to 6 segments (regime, length, base, aux); values by gen::expand
+    pub fn seg_stream(&mut self, dom: Domain, max_total: usize) -> Vec<f64> {
+        let nseg = self.u8() as usize % 6 + 1;
+        let mut out = vec![];
+        for _ in 0..nseg {
+            let regime = self.u8() as usize % crate::gen::N_REGIMES;
+            let len = match self.u8() {
+                x if x < 128 => x as usize % 40 + 1,
+                x if x < 224 => self.u8() as usize * 2 + x as usize,
+                _ => self.u16() as usize % 6000 + 1,
+            };
+            let bi = self.u8();
+            let base = match dom {
+                Domain::PositiveGrid => 2f64.powi((bi % 40) as i32 - 10),
+                Domain::AnySign => [1.0, 1e-6, 1e5, 37.5, 1e12 / 2000.0, 0.02][bi as usize % 6],
+                _ => [1.0, 85.18, 1e-2, 1e4, 3.7e-17, 1e15][bi as usize % 6],
+            };
+            let aux = self.u8() as f64 / 256.0;
+            let room = max_total.saturating_sub(out.len());
+            let len = len.min(room);
+            if len == 0 {
+                break;
+            }
+            let noise: Vec<f64> = (0..len).map(|_| self.u8() as f64 / 256.0).collect();
+            let regime = if dom != Domain::AnySign && regime >= 8 { regime - 8 } else { regime };
+            out.extend(expand(dom, regime, base, aux, &noise));
+        }
+        out
+    }
+}
+
+pub fn decode_c01(b: &[u8]) -> c01::Case {
+    let mut r = R::new(b);
+    let kind = c01::KINDS[r.u8() as usize % c01::KINDS.len()];
+    let n = r.period_wide();
+    let m = if kind.has_mult() { r.finite() } else { 0.0 };
+    let nres = r.u8() % 3;
+    let vals = r.seg_stream(Domain::AnySign, 3 * n + 400);
+    let mut resets: Vec<usize> = (0..nres).map(|_| r.u16() as usize % vals.len().max(1)).collect();
+    resets.sort();
+    resets.dedup();
+    c01::Case { cfg: Cfg { kind, p: vec![n], m: X(m) }, xs: crate::fw::xs(&vals), resets, stride: (n / 16).max(1) }
+}
+
+pub fn decode_c02(b: &[u8]) -> c02::Case {
+    let mut r = R::new(b);
+    const K: [Kind; 6] = [Kind::Ema, Kind::Tr, Kind::Atr, Kind::Macd, Kind::Kc, Kind::Ce];
+    let kind = K[r.u8() as usize % 6];
+    let p: Vec<usize> = (0..kind.n_periods()).map(|_| r.period_wide()).collect();
+    let m = if kind.has_mult() { r.finite() } else { 0.0 };
+    let scalar = kind != Kind::Ce && r.u8() % 2 == 0;
+    if scalar {
+        let vals = r.seg_stream(Domain::AnySign, 4_000);
+        c02::Case { cfg: Cfg { kind, p, m: X(m) }, scalar: true, xs: crate::fw::xs(&vals), bars: vec![] }
+    } else {
+        let vals = r.seg_stream(Domain::Positive, if kind == Kind::Ce { 3 * p[0] + 300 } else { 3_000 });
+        let shape: Vec<(f64, f64, f64, f64, f64)> = (0..(r.u8() as usize % 16 + 1)).map(|_| (r.u8() as f64 / 256.0, r.u8() as f64 / 256.0, r.u8() as f64 / 256.0, r.u8() as f64 / 256.0, r.u8() as f64 / 256.0)).collect();
+        c02::Case { cfg: Cfg { kind, p, m: X(m) }, scalar: false, xs: vec![], bars: bars_from(&vals, &shape, None) }
+    }
+}
+
+pub fn decode_c03(b: &[u8]) -> c03::Case {
+    let mut r = R::new(b);
+    const SK: [Kind; 6] = [Kind::Rsi, Kind::FastStoch, Kind::SlowStoch, Kind::Roc, Kind::Er, Kind::Ppo];
+    const BK: [Kind; 5] = [Kind::FastStoch, Kind::SlowStoch, Kind::Cci, Kind::Mfi, Kind::Obv];
+    let scalar = r.u8() % 2 == 0;
+    let kind = if scalar { SK[r.u8() as usize % 6] } else { BK[r.u8() as usize % 5] };
+    let p: Vec<usize> = (0..kind.n_periods()).map(|_| r.period_wide().min(if kind == Kind::SlowStoch { 64 } else { 600 })).collect();
+    let stride = (p.first().copied().unwrap_or(1) / 16).max(1);
+    let grid = r.u8() % 4 != 0;
+    let dom = if grid { Domain::PositiveGrid } else { Domain::Positive };
+    let vals = r.seg_stream(dom, 3 * p.first().copied().unwrap_or(1) + 300);
+    if scalar {
+        c03::Case { cfg: Cfg { kind, p, m: X(0.0) }, scalar: true, xs: crate::fw::xs(&vals), bars: vec![], stride }
+    } else {
+        let shape: Vec<(f64, f64, f64, f64, f64)> = (0..(r.u8() as usize % 16 + 1)).map(|_| (r.u8() as f64 / 256.0, r.u8() as f64 / 256.0, r.u8() as f64 / 256.0, r.u8() as f64 / 256.0, r.u8() as f64 / 256.0)).collect();
+        let g = if grid { vals.iter().cloned().fold(f64::INFINITY, f64::min) } else { 0.0 };
+        let gs = if grid && g.is_finite() { Some(grid_step(g * 256.0).min(g)) } else { None };
+        c03::Case { cfg: Cfg { kind, p, m: X(0.0) }, scalar: false, xs: vec![], bars: bars_from(&vals, &shape, gs), stride }
+    }
+}
+
+// ---- predicate / differential properties (C07, C08, C09, C15, C17) ----
+use crate::props::{c07, c08, c09, c15, c17};
+
+fn shape_vec(r: &mut R) -> Vec<(f64, f64, f64, f64, f64)> {
+    (0..(r.u8() as usize % 16 + 1)).map(|_| (r.u8() as f64 / 256.0, r.u8() as f64 / 256.0, r.u8() as f64 / 256.0, r.u8() as f64 / 256.0, r.u8() as f64 / 256.0)).collect()
+}
+
+pub fn decode_c07(b: &[u8]) -> c03::Case {
+    let mut r = R::new(b);
+    const SK: [Kind; 4] = [Kind::Rsi, Kind::FastStoch, Kind::SlowStoch, Kind::Er];
+    const BK: [Kind; 3] = [Kind::FastStoch, Kind::SlowStoch, Kind::Mfi];
+    let scalar = r.u8() % 2 == 0;
+    let kind = if scalar { SK[r.u8() as usize % 4] } else { BK[r.u8() as usize % 3] };
+    let cap = if matches!(kind, Kind::Er | Kind::Mfi | Kind::SlowStoch) { 160 } else { 600 };
+    let p: Vec<usize> = (0..kind.n_periods()).map(|_| r.period_wide().min(cap)).collect();
+    let dom = [Domain::PositiveGrid, Domain::Positive, Domain::Positive, Domain::TinyPositive][r.u8() as usize % 4];
+    let vals = r.seg_stream(dom, 3 * p[0] + 400);
+    if scalar {
+        c03::Case { cfg: Cfg { kind, p, m: X(0.0) }, scalar: true, xs: crate::fw::xs(&vals), bars: vec![], stride: 0 }
+    } else {
+        let shape = shape_vec(&mut r);
+        c03::Case { cfg: Cfg { kind, p, m: X(0.0) }, scalar: false, xs: vec![], bars: bars_from(&vals, &shape, None), stride: 0 }
+    }
+}
+
+pub fn decode_c08(b: &[u8]) -> c08::Case {
+    let mut r = R::new(b);
+    let kind: Kind = ALL_KINDS[r.u8() as usize % 22];
+    let cap = if matches!(kind, Kind::Mad | Kind::Cci | Kind::Er) { 130 } else { 600 };
+    let p: Vec<usize> = (0..kind.n_periods()).map(|_| r.period_wide().min(cap)).collect();
+    let m = if kind.has_mult() { r.finite() } else { 0.0 };
+    let n = p.first().copied().unwrap_or(1);
+    let scalar = r.u8() % 2 == 0;
+    let pre = r.seg_stream(Domain::Positive, 3 * n + 40);
+    let shape = shape_vec(&mut r);
+    let npre = r.u16() as usize % (pre.len() + 1);
+    let prefix = bars_from(&pre[..npre], &shape, None);
+    let nzv = if r.u8() % 4 == 0 { r.u8() as usize % (2 * n + 5) } else { 0 };
+    let zvp = r.seg_stream(Domain::Positive, nzv.max(1));
+    let zv = bars_from(&zvp[..nzv.min(zvp.len())], &shape, None);
+    let level = [0.1, 1.0, 85.18, 1e-3, 1e6, 123.456, 3.7e-17, 64999.01][r.u8() as usize % 8];
+    let flat_len = match r.u8() % 4 {
+        0 => r.u8() as usize % (n + 4),
+        1 => n + 1 + r.u8() as usize,
+        2 => r.u16() as usize % 3000,
+        _ => [700, 1100, 2 * n + 3, 5 * n][r.u8() as usize % 4],
+    };
+    c08::Case { cfg: Cfg { kind, p, m: X(m) }, scalar, prefix, zv, level: X(level), vol: X(1.0 + r.u8() as f64), flat_len }
+}
+
+pub fn decode_c09(b: &[u8]) -> c09::Case {
+    let mut r = R::new(b);
+    const SK: [Kind; 12] = [Kind::Sd, Kind::Mad, Kind::Min, Kind::Bb, Kind::Kc, Kind::Macd, Kind::Ppo, Kind::Sma, Kind::Wma, Kind::Ema, Kind::Tr, Kind::Atr];
+    const BK: [Kind; 4] = [Kind::Tr, Kind::Atr, Kind::Kc, Kind::Ce];
+    let scalar = r.u8() % 4 != 0;
+    let kind = if scalar { SK[r.u8() as usize % 12] } else { BK[r.u8() as usize % 4] };
+    let cap = if kind == Kind::Mad { 160 } else { 1024 };
+    let p: Vec<usize> = (0..kind.n_periods()).map(|_| r.period_wide().min(cap)).collect();
+    let m = if kind.has_mult() { r.finite().abs() } else { 0.0 };
+    let n = p.first().copied().unwrap_or(1);
+    let dom = [Domain::AnySign, Domain::AnySign, Domain::TinyAnySign, Domain::TinyPositive][r.u8() as usize % 4];
+    if scalar {
+        let vals = r.seg_stream(dom, 3 * n + 300);
+        c09::Case { cfg: Cfg { kind, p, m: X(m) }, scalar: true, xs: crate::fw::xs(&vals), bars: vec![] }
+    } else {
+        let a = r.seg_stream(dom, 3 * n + 300);
+        let bb = r.seg_stream(dom, a.len());
+        let cc = r.seg_stream(dom, a.len());
+        let len = a.len().min(bb.len()).min(cc.len());
+        let bars = (0..len).map(|i| RawBar { o: a[i], h: a[i].max(bb[i]), l: a[i].min(bb[i]), c: cc[i], v: 1.0 }).collect();
+        c09::Case { cfg: Cfg { kind, p, m: X(m) }, scalar: false, xs: vec![], bars }
+    }
+}
+
+pub fn decode_c15(b: &[u8]) -> c15::Case {
+    let mut r = R::new(b);
+    const SK: [Kind; 6] = [Kind::Bb, Kind::SlowStoch, Kind::Atr, Kind::Macd, Kind::Kc, Kind::Ppo];
+    const BK: [Kind; 5] = [Kind::SlowStoch, Kind::Atr, Kind::Kc, Kind::Ce, Kind::Cci];
+    let scalar = r.u8() % 2 == 0;
+    let kind = if scalar { SK[r.u8() as usize % 6] } else { BK[r.u8() as usize % 5] };
+    let cap = if kind == Kind::Cci { 200 } else { 1024 };
+    let p: Vec<usize> = (0..kind.n_periods()).map(|_| r.period_wide().min(cap)).collect();
+    let m = if kind.has_mult() { r.finite() } else { 0.0 };
+    let n = p.first().copied().unwrap_or(1);
+    if scalar {
+        let dom = if matches!(kind, Kind::Ppo | Kind::SlowStoch) { Domain::Positive } else { Domain::AnySign };
+        let vals = r.seg_stream(dom, 3 * n + 300);
+        c15::Case { cfg: Cfg { kind, p, m: X(m) }, scalar: true, xs: crate::fw::xs(&vals), bars: vec![] }
+    } else {
+        let vals = r.seg_stream(Domain::Positive, 3 * n + 300);
+        let shape = shape_vec(&mut r);
+        c15::Case { cfg: Cfg { kind, p, m: X(m) }, scalar: false, xs: vec![], bars: bars_from(&vals, &shape, None) }
+    }
+}
+
+pub fn decode_c17(b: &[u8]) -> c17::Case {
+    let mut r = R::new(b);
+    let kind = c17::KINDS[r.u8() as usize % c17::KINDS.len()];
+    let cap = if matches!(kind, Kind::Mad | Kind::Cci | Kind::Er) { 160 } else { 1024 };
+    let n = r.period_wide().min(cap);
+    let m = if kind.has_mult() { r.finite() } else { 0.0 };
+    let w = kind.memory(n).unwrap();
+    let scalar = r.u8() % 2 == 0;
+    let extra = [0usize, 0, 1, 2, n, n / 2][r.u8() as usize % 6];
+    let pre = r.seg_stream(Domain::Positive, 2 * n + 300);
+    let npre = r.u16() as usize % (pre.len() + 1);
+    let suf = r.seg_stream(Domain::Positive, w + extra);
+    let shape = shape_vec(&mut r);
+    let mut prefix = bars_from(&pre[..npre], &shape, None);
+    if r.u8() % 2 == 0 && !prefix.is_empty() {
+        let i = r.u16() as usize % prefix.len();
+        let f = [1e3, 1e6][r.u8() as usize % 2];
+        let bb = &mut prefix[i];
+        bb.o *= f;
+        bb.h *= f;
+        bb.l *= f;
+        bb.c *= f;
+    }
+    // the suffix must be at least w long: pad by repeating its last value
+    let mut sv = suf;
+    while sv.len() < w + extra {
+        let last = sv.last().copied().unwrap_or(1.0);
+        sv.push(last * 1.01);
+    }
+    c17::Case { cfg: Cfg { kind, p: vec![n], m: X(m) }, scalar, prefix, suffix: bars_from(&sv, &shape, None) }
+}
